@@ -149,13 +149,13 @@ def _gen_history(rng, n):
         elif r < 0.72:
             fn = rng.choice(["f", "g", "h"])
             body = rng.choice(["{x,x}", "{|x}", "{x:=77,0}", "{[t];t::x;t::t:=55,0;t}", "{1_x}", "{:{[1 2]}}", "{[1 2 3]}", "{[[1 2] [3 4]]:-x,[0 1]}",
-                               "{x@0}", "{(x@0),x}", "{[-1 2]:^x}", "{[2 -1]:^x}", "{[1 2]:#x}", "{[0 1]:_x}", "{[1 0]@x}"])
+                               "{x@0}", "{(x@0),x}", "{_[2.5 3.5]}", "{_x}", "{-x}", "{[-1 2]:^x}", "{[2 -1]:^x}", "{[1 2]:#x}", "{[0 1]:_x}", "{[1 0]@x}"])
             st.append({"text": "%s::%s" % (fn, body), "assigns": [fn], "kind": "fndef", "def": (fn, body)})
             fns[fn] = body
         elif r < 0.84 and fns and have:
             fn = rng.choice(sorted(fns))
             src = rng.choice(have)
-            call = "%s()" % fn if fns[fn] in ("{:{[1 2]}}", "{[1 2 3]}") else "%s(%s)" % (fn, src)
+            call = "%s()" % fn if fns[fn] in ("{:{[1 2]}}", "{[1 2 3]}", "{_[2.5 3.5]}") else "%s(%s)" % (fn, src)
             if fns[fn] == "{:{[1 2]}}":
                 # dictionary literal evaluated inside a function: mutate the result, call again
                 st.append({"text": "d::%s" % call, "assigns": ["d"], "kind": "call:dictfn"})
@@ -179,6 +179,17 @@ def _gen_history(rng, n):
                 assign(tgt, txt, "control-dyad:assign", None)
             else:
                 st.append({"text": txt, "assigns": [], "kind": "control-dyad:expr"})
+        elif r < 0.91 and lists:
+            # every monad applied to a variable, to a view of it, and under Each: the operand must stay what it was
+            src = rng.choice(lists)
+            m = rng.choice(["_", "-", "%", "|", "?", "<", ">", "=", "#", "^", "~", ",", "*", "$", "+", "@", "&", "!", ":#"])
+            n0 = len(vals[src][1])
+            operand = rng.choice([src, src, "(%d#%s)" % (rng.randint(1, n0), src), "(1_%s)" % src, "(|%s)" % src, "(%s@%d)" % (src, rng.randrange(n0))])
+            txt = rng.choice(["%s%s" % (m, operand), "%s%s" % (m, operand), "%s'%s" % (m, src)])
+            if rng.random() < 0.3:
+                assign(tgt, txt, "monad:assign", None)
+            else:
+                st.append({"text": txt, "assigns": [], "kind": "monad:expr"})
         elif r < 0.95 and lists:
             src = rng.choice(lists)
             e = rng.choice(["+/%s", "{x}'%s", "%s+%s", ",/%s", "{x,x}'%s", "|/%s", "#'%s", "%s=%s", "&/%s", "+\\%s", "-%s"])
